@@ -2729,6 +2729,9 @@ fn parse_tap_dance(
             Ok(actions)
         })
         .ok_or_else(|| anyhow_expr!(&ac_params[1], "{ERR_MSG}: expected a list"))??;
+    if actions.is_empty() {
+        bail_expr!(&ac_params[1], "{ERR_MSG}: the list must not be empty");
+    }
 
     Ok(s.a.sref(Action::TapDance(s.a.sref(TapDance {
         timeout,
